@@ -357,12 +357,13 @@ func (t *Tokenizer) tokenizeBuffer(buf []byte, last bool) error {
 				if digitMap[b] != numDigit {
 					break
 				}
-				t.num.Frac = t.num.Frac*10 + uint64(b-'0')
-				t.num.Div *= 10.0
-				if gen.BigLimit <= t.num.Div {
-					t.num.FillBig()
+				if gen.BigLimit < t.num.Div {
+					// The same limit as Number.AddFrac.
+					t.num.AddFrac(b)
 					break
 				}
+				t.num.Frac = t.num.Frac*10 + uint64(b-'0')
+				t.num.Div *= 10.0
 			}
 			off += i
 			if digitMap[b] == numDigit {
